@@ -22,7 +22,8 @@ Normalisations the oracle applies (and nothing else):
 Risky features (each reproduced against the unchanged tree; kept out of `clean` messages; every risky case runs
 with its control twin and is a KNOWN-FINDING only when the twin is exact):
   mbox-attachment        any attachment in a mailbox message            -> .mbox returns no attachments
-  nested-rfc822          an attached message/rfc822                     -> inner body text reported as outer body
+  nested-rfc822          an attached message/rfc822                     -> inner body text reported as outer body;
+                                                                           .eml returns a re-serialisation, not the bytes
   fold-at-encoded-word   Subject folded between =?..?= and plain text   -> the blank at the fold is lost (both readers)
   date-second-60         Date: hh:mm:60 (RFC 5322 leap second)          -> the whole mailbox fails with ValueError
 
@@ -370,7 +371,7 @@ def build_case(rng, tok, fx, n_msgs: int, risky: str | None, cid: int, stats=Non
         s["risky"] = risky
         if risky == "nested-rfc822":
             s["atts"].insert(rng.randrange(len(s["atts"]) + 1), G.nested_eml_attachment(rng, tok, fx, s["hdr"]["policy"]))
-            s["features"] = sorted(set(s["features"]) | {"att:eml:8bit", "risky:nested-rfc822"})
+            s["features"] = sorted(set(s["features"]) | {"att:eml:8bit", "risky:nested-rfc822"} | {f for a in s["atts"] if a["kind"] == "eml" for f in a["inner"]["features"] if ":" in f})
         elif risky == "fold-at-encoded-word":
             G.force_fold_at_encoded_word(rng, tok, s)
         elif risky == "date-second-60":
@@ -436,7 +437,7 @@ def twin_of(spec: dict):
         t = copy.deepcopy(spec)
         t["atts"] = [a for a in t["atts"] if a["kind"] != "eml"]
         t.pop("risky")
-        t["features"] = sorted(f for f in t["features"] if f not in ("att:eml:8bit", "risky:nested-rfc822"))
+        t["features"] = sorted(f for f in t["features"] if f not in ("att:eml:8bit", "risky:nested-rfc822") and not f.startswith("inner:"))
         return t
     if spec.get("risky") == "fold-at-encoded-word":
         t = copy.deepcopy(spec)
@@ -459,7 +460,8 @@ def twin_of(spec: dict):
 KNOWN_SYMPTOMS = {
     # risky feature -> {(carrier, component, symptom)} that the feature is known to cause
     "mbox-attachment": {("mbox", "attachment", "attachments-not-returned")},
-    "nested-rfc822": {("eml", "body-plain", "foreign-text-added"), ("mbox", "body-plain", "foreign-text-added")},
+    "nested-rfc822": {("eml", "body-plain", "foreign-text-added"), ("mbox", "body-plain", "foreign-text-added"),
+                      ("eml", "attachment-eml", "bytes-differ")},
     "fold-at-encoded-word": {("eml", "subject", "blank-between-words-lost"), ("mbox", "subject", "blank-between-words-lost")},
     "date-second-60": {("mbox", "extraction", "raised-ValueError")},
 }
@@ -644,7 +646,7 @@ def judge_case(run, case, m, obs):
     # ---- evidence: one run.case per judged message and carrier
     dset = {(c, i) for c, i, *_ in diffs}
     for i, s in enumerate(specs):
-        sig_feats = [f for f in s["features"] if f.split(":")[0] in ("hdr", "subj", "date", "struct", "body", "att", "risky")]
+        sig_feats = [f for f in s["features"] if f.split(":")[0] in ("hdr", "subj", "date", "struct", "body", "att", "risky", "inner")]
         for carrier in ("eml", "mbox"):
             outcome = "differs" if (carrier, i) in dset else "exact"
             run.case(f"{carrier}|{'|'.join(sig_feats)}|{outcome}",
